@@ -254,7 +254,7 @@ def run(rep, ctx):
     with rep.guard("R03.6"):
         c01.r01_11(rep, M, "R03.6")
         c01.r01_3(rep, M, "R03.6")
-        c01.r01_9(rep, M, "R03.6")
+        c01.r01_9(rep, M, "R03.6", cluster_context=True)
     rep.rule("R03.7", "the dimensionality a cluster reports is coherent with its current atoms, radii and threshold (shared with C13)")
     with rep.guard("R03.7"):
         c13.r13_1(rep, M, "R03.7")
@@ -277,7 +277,7 @@ def run(rep, ctx):
     rep.rule("R03.11", "no function keeps results in module-level state or functools caches (answers do not depend on what the process analysed before)")
     with rep.guard("R03.11"):
         from .. import symrules as _SRms
-        _SRms.module_state(rep, ctx.model, "R03.11")
+        _SRms.module_state(rep, ctx.model, "R03.11", _SRms.GEOMETRY_SIDE)
     rep.floor("R03.1", 8)
     rep.floor("R03.2", 3)
     rep.floor("R03.3", 3)
